@@ -1380,13 +1380,17 @@ pub fn check_match_against(lib: &Order, q: u64) -> Option<String> {
 }
 
 /// Aggregate corruption ("lying aggregates"): 1 all zero, 2 all +1, 3 all MAX,
-/// 4 only visible, 5 only hidden, 6 only the count.
+/// 4 only visible, 5 only hidden (+7; when the visible figure is odd, visible -7 as well, so that
+/// the total is right and only the split is wrong), 6 only the count.
 fn lie_vis(lie: u8, v: u64) -> u64 {
     match lie {
         1 => 0,
         2 => v.wrapping_add(1),
         3 => u64::MAX,
         4 => v.wrapping_add(1000),
+        // 5 with an odd visible figure: 7 units moved from visible to hidden, the total and the
+        // count stay right (figures "captured before a replenishment")
+        5 if v % 2 == 1 => v.wrapping_sub(7),
         _ => v,
     }
 }
